@@ -535,6 +535,52 @@ func checkC09(e *Engine, r *Report) {
 					}})
 				r.Check("R13:bl-new-balloon-undo", "R13 error-path undo", "every exit after a new balloon was created that does not return it undoes the creation (CPUs back to the free set)",
 					e.InstrPos(nb[0]), fn, bad == nil, e.pathString(bad), true)
+				// … and the undo really gives the CPUs back: among the functions undo() may run (the closures appended to
+				// the captured slice) one stores freeCpus ∪ (the new balloon's CPUs) into the free set
+				fFreeCpus := e.Field(pkgBL, "balloons", "freeCpus")
+				fBlnCpus := e.Field(pkgBL, "Balloon", "Cpus")
+				gives := false
+				seenF := map[*ssa.Function]bool{}
+				var visit func(g *ssa.Function, d int)
+				visit = func(g *ssa.Function, d int) {
+					if g == nil || seenF[g] || d > 4 {
+						return
+					}
+					seenF[g] = true
+					AllInstrs(g, func(in ssa.Instruction) {
+						if st, ok := in.(*ssa.Store); ok && fieldOfAddr(st.Addr) == fFreeCpus {
+							if call, ok := st.Val.(*ssa.Call); ok && callObj(call.Common()) != nil && callObj(call.Common()).Name() == "Union" {
+								a := callArgs(call)
+								f0, _ := loadedField(a[0])
+								f1, b1 := loadedField(variadicSingle(a[1]))
+								if f0 == fFreeCpus && f1 == fBlnCpus {
+									// the balloon whose CPUs are returned is the new one
+									if u, ok := b1.(*ssa.UnOp); ok {
+										if al := cellOf(u.X); al != nil {
+											for _, cs := range cellStores(al) {
+												if cs.Val == newBln {
+													gives = true
+												}
+											}
+										}
+									}
+									if b1 == newBln {
+										gives = true
+									}
+								}
+							}
+						}
+						if ci, ok := in.(ssa.CallInstruction); ok {
+							for _, h := range e.Callees(ci) {
+								if TopParent(h) == fn {
+									visit(h, d+1)
+								}
+							}
+						}
+					})
+				}
+				visit(undo, 0)
+				r.Check("R13:bl-new-balloon-undo-returns-cpus", "R13 error-path undo", "undoing the creation of a balloon returns that balloon's CPUs to the free set", e.Pos(undo.Pos()), undo, gives, "", true)
 			}
 		}
 	}
